@@ -13,7 +13,8 @@ REAL_B = e1.REAL_B
 NAME = world.ROOT_NAME
 
 FAMILIES = ["own-v1", "own-v2", "own-hybrid", "ref-V1", "ref-V2",
-            "ref-HY-notrail", "own-v1-aligned", "ref-V1-bep47"]
+            "ref-HY-notrail", "own-v1-aligned", "ref-V1-bep47",
+            "ref-V1-bep47x2"]
 OWN = {"own-v1": "TorrentFile", "own-v2": "Assembler2",
        "own-hybrid": "Assembler3", "own-v1-aligned": "TorrentFile"}
 SCATTER = ["orig", "flat", "deep", "split"]
@@ -29,6 +30,8 @@ def make_meta(fam, tree, P, B, srcroot, mpath, name=NAME):
         m = model.ref_v1(name, tree, P)
     elif fam == "ref-V1-bep47":
         m = model.ref_v1(name, tree, P, "bep47")
+    elif fam == "ref-V1-bep47x2":
+        m = model.ref_v1(name, tree, P, "bep47x2")
     elif fam == "ref-V2":
         m = model.ref_v2(name, tree, P, B)
     else:
